@@ -24,7 +24,7 @@ META = {
     "assumptions": ["CRC clause: a recorded calc_crc24q call on exactly the returned bytes whose result the path condition forces to 0; "
                     "that this result is CRC-24Q is C08; each path's concrete witness is re-validated with an independent CRC"],
 }
-WALL_BUDGET = {"quick": 480, "thorough": 5400}
+WALL_BUDGET = {"quick": 900, "thorough": 5400}
 REPR_IDS = (4072, 1005, 1070)
 
 
